@@ -9,7 +9,7 @@
 import json, os, shutil, subprocess, sys, time
 
 SEED = "/tmp/seed"
-OUT = "/verif/seeded"
+OUT = os.environ.get("SEEDED_DIR", "/verif/seeded")
 ENV = dict(os.environ, VERIF_REPLAY_DIR="/verif/work/seeded_replays", VERIF_EVIDENCE_DIR="/verif/work/seeded_evidence", CARGO_NET_OFFLINE="true")
 
 
